@@ -14,15 +14,15 @@ let dump (force : bool) (d : document) : string =
   let ents = doc_entities d in
   let b = Buffer.create 1024 in
   let add = Buffer.add_string b in
-  let valof name =
+  let valof in_attr name =
     if (not force) && cyclic ents name then "cyc"
-    else match expand ents name with
+    else match (if in_attr then expand_attr ents name else expand ents name) with
       | IOk s -> "k" ^ enc s
       | IErr e -> "x:" ^ class_of e
       | IPanic _ -> "panic"
       | IOof -> "oof" in
   let unexp tag (e : entity) =
-    add (Printf.sprintf "%s(%s;%s;%s;%s)" tag (enc e.en_name) (opt e.en_system) (opt e.en_public) (valof e.en_name)) in
+    add (Printf.sprintf "%s(%s;%s;%s;%s)" tag (enc e.en_name) (opt e.en_system) (opt e.en_public) (valof (tag = "u") e.en_name)) in
   let attr (a : attr) =
     add (Printf.sprintf "A(%s;%s;[" (opt a.xa_prefix) (enc a.xa_local));
     List.iter (function
